@@ -289,6 +289,9 @@ pub use handler::{AskHandler, TellHandler, WeakAskHandler, WeakTellHandler};
 mod actor_control;
 pub use actor_control::{ActorControl, WeakActorControl};
 
+#[cfg(rsactor_verif)]
+pub mod verif;
+
 use futures::FutureExt;
 // Re-export derive macros for convenient access
 pub use rsactor_derive::{message_handlers, Actor};
